@@ -102,8 +102,7 @@ def check_twist(acc, mr, a, th, v):
         acc.violation("log6_not_finite", case, Lg, None, q)
         check_group_single(acc, mr, T, case)
         return
-    Rr = np.ascontiguousarray(T[:3, :3])
-    port_eq_ref = bool(np.allclose(mr.MatrixLog3(Rr), _ref().MatrixLog3(Rr), rtol=0, atol=1e-12))
+    port_eq_ref = _log6_equals_reference(mr, T, Lg)
     inband = 0 <= PI - ang_true < 3e-5
     e = np.abs(mr.MatrixExp6(Lg) - T).max() / scale(T[:3, 3])
     acc.resid("explog6", 0.0 if inband else e)
@@ -116,6 +115,19 @@ def check_twist(acc, mr, a, th, v):
             acc.violation("logexp6", case, e, TOL, q, {"port_equals_reference": port_eq_ref})
     # group structure on this T
     check_group_single(acc, mr, T, case)
+
+
+def _log6_equals_reference(mr, T, Lg):
+    """The known finding about the logarithm near pi may only absorb a failure of the 6-D logarithm if the port's
+    MatrixLog6 still is what the reference computes.  Where the reference itself returns non-finite values (its
+    unclipped arccos), the rotation part must at least be the port's own MatrixLog3 and that must equal the reference's."""
+    with np.errstate(all="ignore"):
+        R6 = _ref().MatrixLog6(T)
+    if np.all(np.isfinite(R6)):
+        return bool(np.allclose(Lg, R6, rtol=1e-9, atol=1e-9))
+    Rr = np.ascontiguousarray(T[:3, :3])
+    L3 = mr.MatrixLog3(Rr)
+    return bool(np.allclose(L3, _ref().MatrixLog3(Rr), rtol=0, atol=1e-12) and np.allclose(Lg[:3, :3], L3, rtol=0, atol=1e-12))
 
 
 BASIS6 = [np.eye(6)[i] for i in range(6)] + [np.array([0.3, -0.7, 0.2, 1.5, -2.0, 0.4])]
@@ -248,8 +260,7 @@ def work_se3(p):
                 acc.case(("s", tuple(np.round(a * th, 13)), tuple(pos)))
                 continue
             T2 = mr.MatrixExp6(Lg)
-            Rr = np.ascontiguousarray(T[:3, :3])
-            port_eq_ref = bool(np.allclose(mr.MatrixLog3(Rr), _ref().MatrixLog3(Rr), rtol=0, atol=1e-12))
+            port_eq_ref = _log6_equals_reference(mr, T, Lg)
         except Exception as e:
             acc.violation("raised", case, repr(e))
             continue
